@@ -1378,6 +1378,25 @@ static void enumerate(hctx* h, scn_params p, long kmax_cap) {
     flush_stats(h, tag);
 }
 
+/* the same, every k in a process of its own: whatever the library sets up lazily on first use (a per-thread decompression
+ * context, tables, dispatch) is set up under the fault - in a child that runs several cases the fault-free case k = 0 has
+ * done all of that before the first fault is delivered */
+static void enumerate_cold(hctx* h, scn_params p, long kmax_cap) {
+    case_res base;
+    p.k = 0;
+    char tag[96];
+    snprintf(tag, sizeof tag, "%s_c%d_m%d_l%d_cold", scn_names[p.scn], p.codec, p.mode, p.lvl);
+    if (p.scn == SCN_BATCH) g_base_digest = batch_table_digest(p.tseed, p.rows, p.rg);
+    int crashed = run_case(h, &p, &base);
+    g_K = crashed ? 0 : base.nreq;
+    if (scn_uses_base(p.scn)) g_base_digest = crashed ? 0 : base.digest;
+    long kmax = g_K;
+    if (kmax_cap && kmax > kmax_cap) kmax = kmax_cap;
+    fprintf(h->out, "#stat K_%s %ld\n", tag, g_K);
+    for (long k = 1; k <= kmax; k++) { scn_params q = p; q.k = k; q.cleanup = (int)(k & 1); run_list(h, &q, 1, cb_print, 1); }
+    flush_stats(h, tag);
+}
+
 static void gen_scn(hctx* h) {
     snprintf(g_err_path, sizeof g_err_path, "/tmp/verif_alloc_%d.err", (int)getpid());
     snprintf(g_in_path, sizeof g_in_path, "/tmp/verif_alloc_%d_in.parquet", (int)getpid());
@@ -1458,6 +1477,13 @@ static void gen_scn(hctx* h) {
                 p.scn = SCN_BATCH; enumerate(h, p, 0);
             }
         }
+    }
+    /* first use of a codec in a process under the fault (every codec, one mode each, one process per k) */
+    for (int ci = 1; ci < 5; ci++) {
+        p.codec = codecs[ci]; p.shape = 0; p.rg = 2; p.lvl = 0; p.mode = (ci + (int)(p.tseed % 3)) % 3;
+        if (!prepare_input(h, &p)) { fprintf(h->out, "#stat prepare_failed_cold 1\n"); continue; }
+        p.scn = SCN_READ; enumerate_cold(h, p, h->thorough ? 0 : 48);
+        if (h->thorough) { p.scn = SCN_BATCH; enumerate_cold(h, p, 0); }
     }
     p.lvl = 0; p.mode = 0;
     /* metadata parse under real arena pressure: sweep the free space of the first block across the
